@@ -281,60 +281,67 @@ fn date_on_year(
     }
 }
 
-/// A date range which starts with an explicit year describes a single
-/// interval (eg. "2021 Mar 28-Apr 16"), this returns its inclusive bounds. The
-/// interval is empty if the end comes before the start.
-fn interval_from_dated_start(
+/// A date range of which a bound carries an explicit year describes a single
+/// interval (eg. "2021 Mar 28-Apr 16", "2024 Jan 1-2024 easter"), this returns
+/// its inclusive bounds. The interval is empty if the end comes before the
+/// start.
+fn interval_from_dated_bound(
     start: &(ds::Date, ds::DateOffset),
     end: &(ds::Date, ds::DateOffset),
 ) -> Option<(NaiveDate, NaiveDate)> {
-    let (
-        ds::Date::Fixed {
-            year: Some(start_year),
-            month: start_month,
-            day: start_day,
-        },
-        start_offset,
-    ) = start
-    else {
-        return None;
+    let year_of = |date: &ds::Date| match date {
+        ds::Date::Fixed { year, .. } | ds::Date::Easter { year } => year.map(i32::from),
     };
 
-    let (ds::Date::Fixed { year: end_year, month: end_month, day: end_day }, end_offset) = end
-    else {
-        return None;
+    let start_on_year = |year: i32| {
+        Some(start.1.apply(match start.0 {
+            ds::Date::Fixed { month, day, .. } => valid_ymd_after(year, month.into(), day.into()),
+            ds::Date::Easter { .. } => easter(year)?,
+        }))
     };
-
-    let start_year = i32::from(*start_year);
-
-    let start_date = start_offset.apply(valid_ymd_after(
-        start_year,
-        (*start_month).into(),
-        (*start_day).into(),
-    ));
 
     let end_on_year = |year: i32| {
-        end_offset.apply(valid_ymd_before(
-            year,
-            (*end_month).into(),
-            (*end_day).into(),
-        ))
+        Some(end.1.apply(match end.0 {
+            ds::Date::Fixed { month, day, .. } => valid_ymd_before(year, month.into(), day.into()),
+            ds::Date::Easter { .. } => easter(year)?,
+        }))
     };
 
-    let end_date = match end_year {
-        Some(end_year) => end_on_year((*end_year).into()),
-        None => {
-            let candidate = end_on_year(start_year);
+    match (year_of(&start.0), year_of(&end.0)) {
+        (None, None) => None,
+        (Some(start_year), end_year) => {
+            let start_date = start_on_year(start_year)?;
 
-            if start_date <= candidate {
-                candidate
-            } else {
-                end_on_year(start_year + 1)
-            }
+            let end_date = match end_year {
+                Some(end_year) => end_on_year(end_year)?,
+                None => {
+                    let candidate = end_on_year(start_year)?;
+
+                    if start_date <= candidate {
+                        candidate
+                    } else {
+                        end_on_year(start_year + 1)?
+                    }
+                }
+            };
+
+            Some((start_date, end_date))
         }
-    };
+        (None, Some(end_year)) => {
+            let end_date = end_on_year(end_year)?;
+            let candidate = start_on_year(end_year)?;
 
-    Some((start_date, end_date))
+            let start_date = {
+                if candidate <= end_date {
+                    candidate
+                } else {
+                    start_on_year(end_year - 1)?
+                }
+            };
+
+            Some((start_date, end_date))
+        }
+    }
 }
 
 impl DateFilter for ds::MonthdayRange {
@@ -363,7 +370,7 @@ impl DateFilter for ds::MonthdayRange {
                 let year = date.year();
 
                 if let Some((start_date, end_date)) =
-                    interval_from_dated_start(&(*start, *start_offset), &(*end, *end_offset))
+                    interval_from_dated_bound(&(*start, *start_offset), &(*end, *end_offset))
                 {
                     return (start_date..=end_date).contains(&date);
                 }
@@ -436,23 +443,21 @@ impl DateFilter for ds::MonthdayRange {
                 Some(next_change_from_bounds(date, [start], [end.pred_opt()?]))
             }
             ds::MonthdayRange::Date {
-                start: start @ (ds::Date::Fixed { year: Some(_), .. }, _),
-                end: end @ (ds::Date::Fixed { .. }, _),
-            } => {
-                let (start_date, end_date) = interval_from_dated_start(start, end)?;
-
-                if end_date < start_date {
-                    // This interval is empty
-                    return Some(DATE_END.date());
-                }
-
-                Some(next_change_from_bounds(date, [start_date], [end_date]))
-            }
-            ds::MonthdayRange::Date {
                 start: (start, start_offset),
                 end: (end, end_offset),
             } => {
                 let year = date.year();
+
+                if let Some((start_date, end_date)) =
+                    interval_from_dated_bound(&(*start, *start_offset), &(*end, *end_offset))
+                {
+                    if end_date < start_date {
+                        // This interval is empty
+                        return Some(DATE_END.date());
+                    }
+
+                    return Some(next_change_from_bounds(date, [start_date], [end_date]));
+                }
 
                 if let (ds::Date::Fixed { year: None, month, day }, true) = (start, start == end) {
                     // A single day, which doesn't exist on some years (eg. "Feb 29", "Apr 31")
